@@ -330,9 +330,10 @@ fn extract_bc_condition(
         collect_predicates_for_range(c, a_cols, &mut preds);
     }
     if let Some(c) = inner {
-        if let Some(s) = shift_columns(c, -(a_cols as i32)) {
-            preds.push(s);
-        }
+        // Conjunct by conjunct, like the outer condition: a conjunct of A JOIN B that only
+        // names B (`... AND b.z = 1`) belongs to B JOIN C. Shifting the condition as a whole
+        // only succeeded when no conjunct named A, so such conjuncts were dropped altogether.
+        collect_predicates_for_range(c, a_cols, &mut preds);
     }
     combine_predicates(preds)
 }
